@@ -753,7 +753,7 @@ def main():
             elif req["k"] == "A":
                 from props import c18raw
                 ans = c18raw.do_A(req["spec"])
-            elif req["k"] in ("GREF", "GLIVE", "REJ"):
+            elif req["k"] in ("GREF", "GLIVE", "REJ", "DPX"):
                 from props import c18gc
                 ans = getattr(c18gc, "do_" + req["k"])(req["spec"])
             else:
